@@ -106,10 +106,11 @@ func utilsRoot(content []byte, chunkSize int64) ([]byte, error) {
 }
 
 type storWorld struct {
-	c     *chain.Chain
-	f     *chain.Fork
-	trace []string
-	files []*sFile
+	proofType int64 // the proof_type field of the files posted in this world (a free, informative field of MsgPostFile)
+	c         *chain.Chain
+	f         *chain.Fork
+	trace     []string
+	files     []*sFile
 }
 
 func newStorWorld(c *chain.Chain, height int64) *storWorld {
@@ -149,7 +150,7 @@ func (w *storWorld) postFile(owner chain.Account, content []byte, maxProofs, exp
 	f := buildFile(content, cs)
 	f.Owner, f.MaxProofs, f.Expires = owner.Bech, maxProofs, expires
 	msg := &storagetypes.MsgPostFile{Creator: owner.Bech, Merkle: f.Merkle, FileSize: f.FileSize,
-		ProofType: 0, MaxProofs: maxProofs, Expires: expires, Note: "{}"}
+		ProofType: w.proofType, MaxProofs: maxProofs, Expires: expires, Note: "{}"}
 	res := w.f.Exec(msg)
 	if res.OK() {
 		var resp storagetypes.MsgPostFileResponse
@@ -157,7 +158,7 @@ func (w *storWorld) postFile(owner chain.Account, content []byte, maxProofs, exp
 		f.Start = resp.StartBlock
 		w.files = append(w.files, f)
 	}
-	w.logf("postFile by %s size=%d chunks=%d maxProofs=%d expires=%d -> %s", short(owner.Bech), f.FileSize, f.numChunks(), maxProofs, expires, res)
+	w.logf("postFile by %s size=%d chunks=%d maxProofs=%d expires=%d proofType=%d -> %s", short(owner.Bech), f.FileSize, f.numChunks(), maxProofs, expires, w.proofType, res)
 	return f, res
 }
 
